@@ -62,6 +62,8 @@ def run(ck):
     ck.explanation = EXPL
     ck.technique = "normal forms of ln(gamma); syntactic d/dx; substitution; role permutation sigma"
     ck.undecided("behaviour exactly at x = 0 or 1 for UNIQUAC (the code substitutes 1e-5 there; the property's domain is the open interval)")
+    from ..purity import purity
+    purity(ck, repo, [repo.find_function(ACT), repo.find_function(GPP), repo.find_function("Composition.to_molar"), repo.find_function("Composition.to_weight")])
     x = poly.T.sym("composition.p", ("nonneg", "comp_p"))
     X = Rat.atom(x)
     n_arms = 0
